@@ -79,9 +79,13 @@ def _comment(lang, text):
 def build():
     C = {}
 
-    def put(cid, lines, lang, enc="utf-8", nl="\n", trailing=True):
+    def put(cid, lines, lang, enc="utf-8", nl="\n", trailing=True, steps=None):
         text = nl.join(lines) + (nl if trailing and lines else "")
         C[cid] = {"lang": lang, "bytes": text.encode(enc)}
+        if steps:
+            # measured cost of one fault-free analysis in budget steps, for texts far above the
+            # default allowance (analysis is quadratic in the nesting depth of functions)
+            C[cid]["steps"] = steps
 
     for lang in LANGS:
         p = lang
@@ -237,9 +241,20 @@ def build():
     put("py.cont", ["def c_py_cont(a, \\", "        b):", "    x = a + \\", "        b", "    return x", "", "y = c_py_cont(1, 2)"], "py")
     put("py.contdef", ["x = 1 + \\", "def after_py_contdef(a):", "    return a", "", "async \\", "def main_py_contdef():", "    pass", "",
                         "y = (1,", "     2); z = \\", "    3", "def last_py_contdef(b): \\", "    return b"], "py")
+    put("py.cookie", ["# -*- coding: utf8-unix -*-", "# Helpers for transcoding: input is bytes", "def k_py_cookie(a):", "    return a"], "py")
+    put("py.cookie2", ["#!/usr/bin/env python", "# vim: set fileencoding=latin-9 :", "def k_py_cookie2(a):", "    return 'é'"], "py", enc="latin-1")
     put("py.tabs", ["def t_py_tabs(a):", "\tif a:", "\t\treturn 1", "\treturn 2"], "py")
     put("py.deflast", ["x = 1", "def d_py_deflast(a)"], "py", trailing=False)
     put("py.lambda", ["f = lambda a: (a)", "def l_py_lambda(a): return a", "g = [l_py_lambda(i) for i in (1, 2)]"], "py")
+    # function definitions nested ~1100 deep (depth of recursion over a properly nested scope tree)
+    for lang in ("js", "java"):
+        cid = f"{lang}.deep1k"
+        N = 1100
+        if lang == "js":
+            lines = ["function n%d_js_deep1k(x) {" % k for k in range(N)] + ["return x;"] + ["}"] * N
+        else:
+            lines = ["class K { void n0_java_deep1k() {"] + ["new Object() { void n%d_java_deep1k() {" % k for k in range(1, N)] + ["int x;"] + ["} };"] * (N - 1) + ["} }"]
+        put(cid, lines, lang, steps=12_000_000 if lang == "js" else 23_000_000)
     # Java specifics
     put("java.record", ["package p;", "public record R_java_record(int a) {", "    public int twice() {", "        return a * 2;",
                         "    }", "}", "abstract class A {", "    abstract void g_java_record();", "    void h_java_record() throws java.io.IOException, RuntimeException {",
